@@ -671,6 +671,13 @@ func main() {
 	for k, v := range heapStatus {
 		fragStatus[k] = v
 	}
+	// trans3: cache/cache.go (frag_cache.go)
+	cacheLean, cacheStatus := translateCache()
+	writeIfChanged(filepath.Join(outDir, "Cache.lean"), cacheLean)
+	for k, v := range cacheStatus {
+		fragStatus[k] = v
+	}
+	// trans3 end
 	if len(os.Args) > 3 {
 		b, _ := json.MarshalIndent(map[string]any{"lockTable": tab, "effects": effs, "consts": cs, "regeneratedFunctions": fragStatus}, "", " ")
 		writeIfChanged(os.Args[3], string(b)+"\n")
